@@ -219,6 +219,14 @@ def _subs_arr(a, mp):
     return I.NDArr.new(a.shape, [I.fast_subs(e, mp) for e in a.flat()])
 
 
+def _sym_name(r):
+    """name of the symbol a one-term Rat consists of"""
+    (m, _c), = r.n.t.items()
+    if len(m) != 1 or m[0][1] != 1 or F.atom_desc(m[0][0])[0] != "s":
+        raise Unsupported("a symbol is expected")
+    return F.atom_desc(m[0][0])[1]
+
+
 def _ivec(*idx):
     return I.NDArr.new((len(idx),), list(idx))
 
@@ -437,19 +445,38 @@ class NewmarkRun:
             return True
         if self.unc or not isinstance(x, I.NDArr) or not isinstance(y, I.NDArr) or x.shape != y.shape:
             return False
-        # the two sides differ as polynomials in the entries of A and iA.  On the systems with diagonal A (iA = 1/A entry-wise) the relation
-        # holds by substitution: a difference there is a genuine difference.  Otherwise substitute the exact inverse.
-        mp = {}
-        for i in range(N):
-            for j in range(N):
-                mp[f"iA_{i}_{j}"] = (1 / I.R(self.A.item(i, i))) if i == j else F.const(0)
-                if i != j:
-                    mp[f"a_{i}_{j}"] = F.const(0)
-        if not _eq(_subs_arr(x, mp), _subs_arr(y, mp)):
+        # The two sides differ as polynomials in the entries of A and of iA (the symbols standing for inv(A)).  They are equal as functions iff
+        # the difference vanishes modulo iA A = I.  Cheap proofs of a genuine difference first: on the systems with diagonal, then with upper
+        # triangular A, inv(A) has monomial entries and the relation holds by substitution.  Else the exact test: iA = adj(A)/det(A).
+        a = [[I.R(self.A.item(i, j)) for j in range(N)] for i in range(N)]
+        if N != 2 or any(len(e.n.t) != 1 or not e.d.is_const() or e.is_const() for r_ in a for e in r_):
+            inv = I.inverse(self.A)
+            mp = {f"iA_{i}_{j}": inv.item(i, j) for i in range(N) for j in range(N)}
+            return _eq(_subs_arr(x, mp), _subs_arr(y, mp))
+        names = [[_sym_name(a[i][j]) for j in range(N)] for i in range(N)]
+        diag = {names[0][1]: F.const(0), names[1][0]: F.const(0), "iA_0_0": 1 / a[0][0], "iA_1_1": 1 / a[1][1], "iA_0_1": F.const(0), "iA_1_0": F.const(0)}
+        if not _eq(_subs_arr(x, diag), _subs_arr(y, diag)):
             return False
-        inv = I.inverse(self.A)
-        mp = {f"iA_{i}_{j}": inv.item(i, j) for i in range(N) for j in range(N)}
-        return _eq(_subs_arr(x, mp), _subs_arr(y, mp))
+        tri = {names[1][0]: F.const(0), "iA_0_0": 1 / a[0][0], "iA_1_1": 1 / a[1][1], "iA_0_1": -a[0][1] / (a[0][0] * a[1][1]), "iA_1_0": F.const(0)}
+        if not _eq(_subs_arr(x, tri), _subs_arr(y, tri)):
+            return False
+        det = a[0][0] * a[1][1] - a[0][1] * a[1][0]
+        adj = {"iA_0_0": a[1][1], "iA_0_1": -a[0][1], "iA_1_0": -a[1][0], "iA_1_1": a[0][0]}
+        ids = {F._intern(("s", nm)) for nm in adj}
+        for ex, ey in zip(x.flat(), y.flat()):
+            dn = (I.R(ex) - I.R(ey)).n                      # zero iff the entries are equal
+            groups = {}
+            for m, c in dn.t.items():
+                groups.setdefault(sum(e for at, e in m if at in ids), {})[m] = c
+            if not groups:
+                continue
+            top = max(groups)
+            tot = F.const(0)
+            for k_, terms in groups.items():               # a term of degree k in iA is (the same term in adj(A)) / det^k
+                tot = tot + I.fast_subs(F.Rat(F.Poly(terms)), adj) * det ** (top - k_)
+            if not tot.is_zero():
+                return False
+        return True
 
     # ---- facts: name -> (holds, detail)
     def facts(self):
@@ -549,7 +576,12 @@ def _newmark_runs(ctx):
         tag = f"SolveNewmark ({r.tag})"
         facts = None
         for attempt in (0, 1):
-            ok, why = _guard(ctx, tag, where, lambda: r.run().facts(), partial=attempt == 0)
+            # the configurations need at most 70 000 term products on the documented code: three times that is "the formulas explode"
+            I.work_reset(200000 if attempt == 0 else 100000)
+            try:
+                ok, why = _guard(ctx, tag, where, lambda: r.run().facts(), partial=attempt == 0)
+            finally:
+                I.work_reset()
             if ok == "toolarge":
                 # the formulas outgrew the budget: decide on the shortest history that has a start-up step, one regular step and the extra step
                 r = NewmarkRun(ctx, docs, nt=3, **cfg)
